@@ -22,4 +22,61 @@ void add_alt_entry_and_assumptions(Rng &r, Case &c);
 // blocks of f reachable from its entry that lie on no cycle
 std::vector<std::string> acyclic_reachable_blocks(const Function &f);
 
+
+// C02 monitor: a safe / unreachable verdict is refuted by an execution
+struct VerdictMonitor : Monitor {
+  const CheckResult &cr;
+  const Case &cs;
+  Outcome &out;
+  std::string fname;
+  long judged = 0, judged_safe = 0, reached_false = 0;
+  VerdictMonitor(const CheckResult &r, const Case &c, Outcome &o) : cr(r), cs(c), out(o) {}
+  bool on_assert(Machine &, Frame &f, const std::string &label, stmt_t &s, int64_t id,
+                 bool holds) override {
+    auto it = cr.by_id.find(id);
+    if (it == cr.by_id.end())
+      return true;
+    judged++;
+    if (!holds)
+      reached_false++;
+    bool all_safe = true, any_unreach = false, all_unreach = true;
+    for (auto v : it->second) {
+      if (v != Verdict::SAFE && v != Verdict::UNREACH)
+        all_safe = false;
+      if (v == Verdict::UNREACH)
+        any_unreach = true;
+      else
+        all_unreach = false;
+    }
+    (void)any_unreach;
+    crab::crab_string_os os;
+    os << s;
+    if (all_unreach && !it->second.empty()) {
+      out.violated = true;
+      out.v.property = cs.property;
+      out.v.monitor = "unreachable_verdict";
+      out.v.item = cs.pstr("analyzer", "fwd");
+      out.v.where = f.fn->src->name + ":" + label;
+      out.v.detail = "assertion id=" + std::to_string(id) + " [" + os.str() +
+                     "] classified unreachable but an execution reaches it";
+      return false;
+    }
+    if (all_safe && !it->second.empty()) {
+      judged_safe++;
+      if (!holds) {
+        out.violated = true;
+        out.v.property = cs.property;
+        out.v.monitor = "safe_verdict";
+        out.v.item = cs.pstr("analyzer", "fwd");
+        out.v.where = f.fn->src->name + ":" + label;
+        out.v.detail = "assertion id=" + std::to_string(id) + " [" + os.str() +
+                       "] classified safe but an execution reaches it with a false condition";
+        return false;
+      }
+    }
+    return true;
+  }
+};
+
+
 } // namespace sim
